@@ -351,10 +351,46 @@ def esc(s: str) -> str:
             .replace('\n', '&#10;').replace('\r', '&#13;'))
 
 
+def directed_descs(v11: bool) -> list:
+    """seed-independent boundary family: every facet kind at its smallest legal values (0, 1, 2) on each
+    primitive family it applies to, alone, in pairs and narrowed over two derivation levels"""
+    out: list = []
+    dec, integer = ('b', 'decimal'), ('b', 'integer')
+    for fd in (0, 1, 2):
+        out.append(('r', dec, {'fractionDigits': fd}))
+        for td in (1, 3):
+            if fd <= td:
+                out.append(('r', dec, {'totalDigits': td, 'fractionDigits': fd}))
+    for td in (1, 2, 3):
+        out.append(('r', dec, {'totalDigits': td}))
+        out.append(('r', integer, {'totalDigits': td}))
+    out.append(('r', ('r', dec, {'fractionDigits': 2}), {'fractionDigits': 0}))
+    out.append(('r', ('r', dec, {'fractionDigits': 1}), {'totalDigits': 2}))
+    out.append(('r', ('r', dec, {'totalDigits': 3}), {'totalDigits': 1}))
+    out.append(('l', ('r', dec, {'fractionDigits': 0})))
+    for root in (dec, integer, ('b', 'short')):
+        for kind in ('minInclusive', 'minExclusive', 'maxInclusive', 'maxExclusive'):
+            for b in ('0', '-1', '10'):
+                out.append(('r', root, {kind: b}))
+        out.append(('r', ('r', root, {'maxInclusive': '10'}), {'maxInclusive': '5', 'minInclusive': '5'}))
+        out.append(('r', ('r', root, {'minExclusive': '-1'}), {'maxExclusive': '1'}))
+    for root in ('string', 'token', 'hexBinary', 'base64Binary', 'anyURI', 'NMTOKEN'):
+        for n in (0, 1, 2):
+            out.append(('r', ('b', root), {'length': n}))
+            out.append(('r', ('b', root), {'minLength': n}))
+            out.append(('r', ('b', root), {'maxLength': n}))
+        out.append(('r', ('r', ('b', root), {'maxLength': 2}), {'minLength': 2}))
+    for item in ('int', 'token'):
+        for n in (0, 1, 2):
+            out.append(('r', ('l', ('b', item)), {'length': n}))
+            out.append(('r', ('l', ('b', item)), {'minLength': n, 'maxLength': n + 1}))
+    return out
+
+
 def gen_types(rng: Any, v11: bool, n: int) -> list[dict]:
     """intent descriptions of derived types: {'name', 'd': desc}; desc = ('b', name) | ('r', desc, facets) |
     ('l', desc) | ('u', [desc])"""
-    out = []
+    out = directed_descs(v11)
     atoms = []
     roots = BASES_NUM + BASES_STR + BASES_BIN + list(DATE_LIT) + ['boolean'] + (DUR_TYPES if v11 else ['duration'])
     for i in range(n):
